@@ -4,6 +4,7 @@ import (
 	"bytes"
 	"encoding/json"
 	"fmt"
+	"sort"
 
 	"github.com/Azbesciak/RealDecisionMaker/lib/model"
 
@@ -154,17 +155,35 @@ func c09Pair(c *Case) []Violation {
 // (c) report faithfulness by stepping
 func c09Reports(c *Case) []Violation {
 	req := asM(roundTrip(c.Req))
-	st, _, failAt, err := runPath(req)
+	st, err := NewStepper(J(req))
 	if err != nil || st == nil {
-		_ = failAt
 		stat("reports_case_rejected(C07's subject)")
 		return nil
 	}
+	var vs []Violation
+	for k := 0; !st.Done(); k++ {
+		prev := StateOf(st.Current)
+		if _, e := st.Step(); e != nil {
+			stat("reports_case_rejected(C07's subject)")
+			return nil
+		}
+		// what the report says about criteria that went or came is what the next stage holds
+		var rep map[string]interface{}
+		jsonUnmarshal(st.RepJSON[k], &rep)
+		omitted, added := reportedCriteriaChange(rep)
+		next := StateOf(st.Current)
+		gone, came := diffStrings(prev.CritIDs(), next.CritIDs())
+		sort.Strings(omitted)
+		sort.Strings(added)
+		if !sameStrings(gone, omitted) || !sameStrings(came, added) {
+			vs = append(vs, viol(c, "C09/report-not-what-next-stage-received", "bias %d (%v) reports omitted %v / added %v, the next stage received criteria without %v / with new %v", k, asM(asL(req["biases"])[k])["name"], omitted, added, gone, came))
+		}
+	}
 	rk, eerr := st.Evaluate()
 	if eerr != nil {
-		return nil
+		stat("reports_case_method_failed")
+		return vs
 	}
-	var vs []Violation
 	for k, rep := range st.Reports {
 		now, _ := json.Marshal(rep)
 		if !bytes.Equal(now, st.RepJSON[k]) {
@@ -187,6 +206,31 @@ func c09Reports(c *Case) []Violation {
 		cur.Outcome(len(st.Reports) > 1, "reports", J(c.Req))
 	}
 	return vs
+}
+
+// diffStrings: elements only in a, elements only in b (both sorted).
+func diffStrings(a, b []string) (onlyA, onlyB []string) {
+	in := func(x string, l []string) bool {
+		for _, y := range l {
+			if x == y {
+				return true
+			}
+		}
+		return false
+	}
+	for _, x := range a {
+		if !in(x, b) {
+			onlyA = append(onlyA, x)
+		}
+	}
+	for _, x := range b {
+		if !in(x, a) {
+			onlyB = append(onlyB, x)
+		}
+	}
+	sort.Strings(onlyA)
+	sort.Strings(onlyB)
+	return
 }
 
 func c09Run(s *Shard) {
@@ -220,6 +264,9 @@ func c09Run(s *Shard) {
 			chains = append(chains, []M{a, b})
 		}
 	}
+	// an omission that takes every criterion it receives (alone, after another omission, after an addition)
+	all1 := bias("criteriaOmission", M{"ratio": 1.0})
+	chains = append(chains, []M{all1}, []M{core[0], all1}, []M{core[4], all1}, []M{bias("criteriaOmission", M{"ratio": 0.0, "min": 3})})
 	for _, m := range allMethods {
 		for _, sub := range []bool{false, true} {
 			root := rootRequest(m, sub, false)
